@@ -141,6 +141,9 @@ func c19(c *vc.Ctx) {
 				if seenWord[w] {
 					return
 				}
+				if c19DevWords != nil && !c19DevWords[w] {
+					return
+				}
 				seenWord[w] = true
 				sets := reduced
 				if len(seq) <= fullLen {
@@ -235,6 +238,25 @@ func c19(c *vc.Ctx) {
 	os.RemoveAll(root)
 	c.Finish(complete)
 }
+
+// DEV ONLY (removed before finishing)
+var c19DevWords = func() map[string]bool {
+	f := os.Getenv("C19_DEV_WORDS")
+	if f == "" {
+		return nil
+	}
+	b, err := os.ReadFile(f)
+	if err != nil {
+		panic(err)
+	}
+	m := map[string]bool{}
+	for _, l := range strings.Split(string(b), "\n") {
+		if l != "" {
+			m[l] = true
+		}
+	}
+	return m
+}()
 
 func c19Key(t c19Case) string {
 	return fmt.Sprintf("t%d %q opts=%s abs=%v", t.Tree, t.Word, c19OptString(t.Opts), t.Abs)
